@@ -15,6 +15,15 @@ PROP = "C01"
 NEEDS_FAULT = False
 
 
+FAULT_COMBOS = [
+    (op, kind, sticky)
+    for op in engine.FAULT_OPS
+    for kind in _c16.ERROR_KINDS[op]
+    for sticky in (False, True)
+    if not (sticky and (kind.endswith("_short") or kind.startswith("interrupt")))
+]
+
+
 def _combo(k: int, pkg: dict) -> dict:
     combos = workload.all_option_combos()
     o = dict(combos[k % len(combos)])
@@ -55,16 +64,23 @@ def plan_fault_histories(case: dict, ref: dict) -> list[list[dict]]:
     hs: list[list[dict]] = []
     if not strata:
         return hs
-    for _ in range(case["params"].get("n_fault", 2)):
+    n_fault = case["params"].get("n_fault", 2)
+    base = (case["index"] if isinstance(case["index"], int) else 0) * n_fault + (case.get("verif_seed") or 0)
+    for j in range(n_fault):
         faults = []
-        for _k in range(1 if r.random() < 0.75 else 2):
+        # the first fault of a plan walks round-robin through every (life-cycle step, error kind, transient/persistent)
+        # combination, so that a batch of a few dozen cases covers all of them; its place in the run is still seeded
+        op, kind, sticky = FAULT_COMBOS[(base + j) % len(FAULT_COMBOS)]
+        e = engine.pick_fault_event_for_op(r, strata, op)
+        if e is not None:
+            f = {"sel": engine.selector_for(e), "kind": kind}
+            if sticky:
+                f["sticky"] = True  # the condition persists (full disk, read-only directory, descriptor table full)
+            faults.append(f)
+        if r.random() < 0.25:
             e = engine.pick_fault_event(r, strata)
             if e is not None:
-                f = {"sel": engine.selector_for(e), "kind": r.choice(_c16.ERROR_KINDS[e["op"]])}
-                p_sticky = 0.6 if f["kind"].split("_")[0] in ("enospc", "emfile", "erofs") else 0.25  # conditions that typically persist
-                if r.random() < p_sticky and not f["kind"].endswith("_short"):
-                    f["sticky"] = True  # the condition persists (full disk, read-only directory)
-                faults.append(f)
+                faults.append({"sel": engine.selector_for(e), "kind": r.choice(_c16.ERROR_KINDS[e["op"]])})
         if faults:
             hs.append([{"sigma": {}, "faults": faults, "role": "fault"}])
     # the output directory is already populated by an earlier complete run (other working directory / spelling)
